@@ -426,6 +426,18 @@ pub fn gen_valid_entry(rng: &mut Rng, cfg: &Cfg, hostile_text: bool, allow_big: 
             ks.into_iter().map(|k| (dim_keys[k].clone(), rng.pick(&dim_values[k]).clone())).collect()
         })
         .collect();
+    // a set whose single value SPELLS OUT another set ("v0,K1=v1", also with JSON-ish separators):
+    // two different assignments that any unescaped joining of names and values would confuse
+    let mut dim_sets_for_metrics = dim_sets_for_metrics;
+    if rng.below(4) == 0 {
+        let (a, b) = if rng.bool() { (0usize, 1usize) } else { (1, 0) };
+        let (ka, kb) = (dim_keys[a].clone(), dim_keys[b].clone());
+        let (va, vb) = (dim_values[a][0].clone(), dim_values[b][0].clone());
+        let sep = *rng.pick(&[("=", ","), (":", ","), ("\":\"", "\",\""), ("=", ";"), ("\u{0}", "\u{1}")]);
+        dim_sets_for_metrics.push(vec![(ka.clone(), va.clone()), (kb.clone(), vb.clone())]);
+        dim_sets_for_metrics.push(vec![(ka.clone(), format!("{va}{}{kb}{}{vb}", sep.1, sep.0))]);
+        dim_sets_for_metrics.push(vec![(kb.clone(), format!("{vb}{}{ka}{}{va}", sep.1, sep.0))]);
+    }
     let mut any_dimmed = false;
     for _ in 0..rng.below(7) {
         let n = fresh(rng, &mut used);
